@@ -35,7 +35,7 @@ def prepare():
 
 topic_st = st.one_of(st.sampled_from(['main', 'other', '_metrics', '_hid', 'a', 'cam-1', 'x.y']), st.from_regex(r'_?[a-z][a-z0-9]{0,6}', fullmatch=True))
 frame_st = st.fixed_dictionaries({
-    'img': st.one_of(st.none(), gen.image_spec(max_dim=120), gen.image_spec(max_dim=120)),
+    'img': st.one_of(st.none(), gen.image_spec(max_dim=120, layouts=('contig', 'colstride', 'rowstride', 'fortran')), gen.image_spec(max_dim=120, layouts=('contig', 'colstride', 'rowstride', 'fortran'))),
     'kind': st.sampled_from(['raw', 'raw', 'jpg_undecoded', 'jpg_decoded']),
     'data': st.one_of(st.just({}), gen.json_dict, gen.json_dict),
 })
@@ -67,8 +67,19 @@ def through_socket(topicmsgs):
     """What zeromq.py + a socket do to a message: envelope element through JSON, every other part to immutable bytes."""
     out = {}
     for topic, msg in topicmsgs.items():
-        out[topic] = [json.loads(json.dumps(msg[0], separators=(',', ':'))), *[bytes(m) for m in msg[1:]]]
+        out[topic] = [json.loads(json.dumps(msg[0], separators=(',', ':'))), *[wire_bytes(m) for m in msg[1:]]]
     return out
+
+
+def wire_bytes(part):
+    """A socket sends a contiguous buffer as it lies in memory (pyzmq does not re-linearise a Fortran-ordered buffer into C order the
+    way bytes() would); a non-contiguous buffer cannot be sent at all."""
+    if isinstance(part, (bytes, bytearray)):
+        return bytes(part)
+    mv = memoryview(part)
+    if not mv.contiguous:
+        raise ValueError('a non-contiguous buffer was handed to the socket')
+    return mv.tobytes(order='A')
 
 
 def json_eq(a, b):
@@ -139,7 +150,7 @@ def run_case(case):
             classes.append('jpg gray' if im['fmt'] == 'GRAY' else 'jpg colour')
         corner = []
         if im['h'] == 1 or im['w'] == 1: corner.append('dimension 1')
-        if im['layout'] != 'contig': corner.append('strided')
+        if im['layout'] != 'contig': corner.append('strided' if im['layout'] != 'fortran' else 'fortran order')
         if not im['rw']: corner.append('read-only source')
         if sp['kind'] != 'raw': corner.append(sp['kind'])
         if not sp['data']: corner.append('image with empty data')
